@@ -56,11 +56,14 @@ pub struct Interpreter<TStdlib: Stdlib, TStdIn: Input, TStdOut: Printer, TLpt1: 
     /// Holds addresses to jump back to
     return_address_stack: Vec<usize>,
 
-    /// For every return address, the heights of the register stack and of the
-    /// GOSUB address stack at the time of the call: a procedure that is left
-    /// from inside a loop body reached by GOSUB (EXIT SUB in a GOSUB routine)
-    /// must not leave its register frames and GOSUB addresses behind
-    return_marks: Vec<(usize, usize)>,
+    /// For every return address, the heights of the register stack, of the
+    /// GOSUB address stack, of the value stack and of the variable path stack
+    /// at the time of the call: a procedure that is left from inside a loop
+    /// body reached by GOSUB (EXIT SUB in a GOSUB routine) must not leave its
+    /// register frames and GOSUB addresses behind, and a statement of the
+    /// procedure that was abandoned because of a handled error must not leave
+    /// its operands and variable paths in the way of the caller's pending ones
+    return_marks: Vec<(usize, usize, usize, usize)>,
 
     /// For every return address, the state of the PRINT statement the call
     /// interrupted (device, format string, pending separator): a PRINT executed
@@ -485,16 +488,22 @@ impl<TStdlib: Stdlib, TStdIn: Input, TStdOut: Printer, TLpt1: Printer>
             }
             Instruction::PushRet(address) => {
                 self.return_address_stack.push(*address);
-                self.return_marks
-                    .push((self.register_stack.len(), self.go_sub_address_stack.len()));
+                self.return_marks.push((
+                    self.register_stack.len(),
+                    self.go_sub_address_stack.len(),
+                    self.value_stack.len(),
+                    self.var_path_stack.len(),
+                ));
                 self.saved_print_states.push(self.print_state.clone());
             }
             Instruction::PopRet => {
                 let address = self.return_address_stack.pop().unwrap();
-                if let Some((registers, go_subs)) = self.return_marks.pop() {
+                if let Some((registers, go_subs, values, var_paths)) = self.return_marks.pop() {
                     self.register_stack.truncate(registers);
                     self.go_sub_address_stack.truncate(go_subs);
                     self.go_sub_marks.truncate(go_subs);
+                    self.value_stack.truncate(values);
+                    self.var_path_stack.truncate(var_paths);
                 }
                 if let Some(print_state) = self.saved_print_states.pop() {
                     self.print_state = print_state;
@@ -548,7 +557,7 @@ impl<TStdlib: Stdlib, TStdIn: Input, TStdOut: Printer, TLpt1: Printer>
                 self.context.unwind_to_global();
                 self.stacktrace.clear();
                 self.return_address_stack.clear();
-                if let Some((registers, go_subs)) = self.return_marks.first().copied() {
+                if let Some((registers, go_subs, _, _)) = self.return_marks.first().copied() {
                     self.register_stack.truncate(registers);
                     self.go_sub_address_stack.truncate(go_subs);
                     self.go_sub_marks.truncate(go_subs);
